@@ -5,6 +5,7 @@
 -/
 import Cav.Drv.Quad
 import Cav.Drv.Parse
+import Cav.Drv.Sweep
 
 open Cav Cav.Drv
 
@@ -21,6 +22,8 @@ def step (line : String) : String :=
   | "intervals" :: rest => drvIntervals rest
   | "polygons" :: rest => drvPolygons rest
   | "ad" :: rest => drvAd rest
+  | "sweep" :: rest => drvSweep rest
+  | "sweepq" :: rest => drvSweepQ rest
   | _ => "bad-request"
 
 partial def loop (h : IO.FS.Stream) (out : IO.FS.Stream) : IO Unit := do
